@@ -333,6 +333,26 @@ pub fn run_impl(sc: &Script, fails: &BTreeMap<usize, u32>) -> String {
 	format!("{out} | {log}")
 }
 
+/// Value::deserialize followed by Value::serialize (src/transcode/value.rs) with a serializer that never fails.
+pub fn run_value(sc: &Script) -> String {
+	let st = RefCell::new(SerState { counter: 0, log: vec![], fails: BTreeMap::new(), element_twice: false });
+	let res = catch_unwind(AssertUnwindSafe(|| xt::verif::value_roundtrip(RecSer(&st), ScriptDe(sc))));
+	let out = match res {
+		Ok(Ok(Ok(()))) => "ok".to_string(),
+		Ok(Ok(Err(s))) => format!("ser:{}", s.0.map_or("syn".to_string(), |i| i.to_string())),
+		Ok(Err(d)) => format!("de:{}", d.0.map_or("syn".to_string(), |i| i.to_string())),
+		Err(_) => "panic".to_string(),
+	};
+	let log = st.borrow().log.join(" ");
+	format!("{out} | {log}")
+}
+
+pub fn value_line(id: usize, sc: &Script) -> String {
+	let mut toks = vec![];
+	sc.tokens(&mut toks);
+	format!("V {id} {}", toks.join(" "))
+}
+
 pub fn case_line(id: usize, sc: &Script, fails: &BTreeMap<usize, u32>) -> String {
 	let mut toks = vec![];
 	sc.tokens(&mut toks);
@@ -481,11 +501,12 @@ pub struct Stats {
 	pub oracle_failures: Vec<String>,
 	pub samples: Vec<String>,
 	pub nontrivial: usize,
+	pub value_cases: usize,
 }
 
 pub fn generate_and_run(seed: u64, tier: &str, cases_w: &mut dyn Write, impl_w: &mut dyn Write) -> Stats {
 	std::panic::set_hook(Box::new(|_| {}));
-	let mut st = Stats { cases: 0, exhaustive_scripts: 0, max_nodes: 0, outcomes: BTreeMap::new(), oracle_failures: vec![], samples: vec![], nontrivial: 0 };
+	let mut st = Stats { cases: 0, exhaustive_scripts: 0, max_nodes: 0, outcomes: BTreeMap::new(), oracle_failures: vec![], samples: vec![], nontrivial: 0, value_cases: 0 };
 	let mut id = 0usize;
 	let mut distinct = std::collections::HashSet::new();
 	let mut run_one = |sc: &Script, fails: &BTreeMap<usize, u32>, st: &mut Stats, cases_w: &mut dyn Write, impl_w: &mut dyn Write| {
@@ -507,6 +528,14 @@ pub fn generate_and_run(seed: u64, tier: &str, cases_w: &mut dyn Write, impl_w: 
 			st.samples.push(format!("{line} => {res}"));
 		}
 		id += 1;
+		if fails.is_empty() {
+			// the same document through the borrowed Value
+			let vres = run_value(sc);
+			writeln!(cases_w, "{}", value_line(id, sc)).unwrap();
+			writeln!(impl_w, "{id} {vres}").unwrap();
+			st.value_cases += 1;
+			id += 1;
+		}
 	};
 	// (a) every script up to a node bound over a reduced vocabulary x every single serializer fault position
 	let max_nodes = if tier == "thorough" { 5 } else { 4 };
